@@ -3,6 +3,7 @@ package main
 // ConstFacts, part 6: (*baseLeaf).URLPath, tree.go, and the Lean output.
 
 import (
+	"encoding/json"
 	"fmt"
 	"go/ast"
 	"os"
@@ -121,6 +122,12 @@ func emitConstFacts(repo string) (string, error) {
 	c.leafFacts()
 	c.urlPathFacts()
 	c.treeFacts()
+	// where every constant was read (for lib/constmut.py)
+	if p := os.Getenv("VERIF_FACT_SITES"); p != "" {
+		if raw, err := json.MarshalIndent(c.siteOf, "", " "); err == nil {
+			_ = os.WriteFile(p, raw, 0o644)
+		}
+	}
 	// the documented text of every constant (fallback for the ones whose anchor is gone)
 	documented := map[string]string{}
 	var docOrder []string
